@@ -221,7 +221,7 @@ pub fn val_to_string(v: &Variable, types: bool, ids: &mut Ids, depth: usize) -> 
         Variable::Array(a) => {
             let elems: String = a.iter().map(|x| format!(" {}", val_to_string(x, types, ids, depth + 1))).collect();
             if types {
-                format!("(arr {}{})", ty_to_string(a.element_type()), elems)
+                format!("(arrt {}{})", ty_to_string(a.element_type()), elems)
             } else {
                 format!("(arr{elems})")
             }
